@@ -158,6 +158,7 @@ def parts(tier):
                 what='all placements of <=%d short-write deviations over every bulk_write of the session' % k, bound='wcap deviations <= %d' % k)]
     from . import c18
     sc = [{'transport': t, 'buffers': 'small', 'push': pz} for t in twins for pz in ('small', 'big')]
+    sc += [{'transport': t, 'buffers': 'small-fast', 'push': 'big', 'stall': 300000} for t in twins]       # the reader stops once, in mid-push, for longer than the transport timeout
     out.append(Part('loopback-small-buffers', sc, c18.run_tcp_session, what='real loopback TCP, SO_SNDBUF/SO_RCVBUF 4 KiB, slow reader, 100 KiB and 1 MiB push with a 5 s transport timeout',
                     bound='%d sessions (conformance runs: kernel scheduling is not enumerated)' % len(sc), exhaustive=False, chunk=1, min_outcomes=1, workers=4))
     nref = 140
